@@ -17,6 +17,8 @@
 #include <unistd.h>
 #include <malloc.h>
 #include "core.h"
+#include <elf.h>
+#include <vector>
 #include "thrsim.h"
 
 extern "C" {
@@ -48,12 +50,42 @@ static int phdr_cb(struct dl_phdr_info * info, size_t, void *) {
 }
 struct Labelled;
 static const char * label_of(uintptr_t a);
+// file-local (static) symbols are not in the dynamic symbol table: read .symtab of the shared object once
+struct StaticSym { uintptr_t lo, hi; std::string name; };
+static std::vector<StaticSym> * static_syms = nullptr;
+static void load_static_syms(const char * path) {
+	static_syms = new std::vector<StaticSym>();
+	FILE * f = fopen(path, "rb");
+	if (!f) return;
+	ElfW(Ehdr) eh;
+	if (fread(&eh, sizeof eh, 1, f) != 1) { fclose(f); return; }
+	std::vector<ElfW(Shdr)> sh(eh.e_shnum);
+	fseek(f, (long)eh.e_shoff, SEEK_SET);
+	if (fread(sh.data(), sizeof(ElfW(Shdr)), eh.e_shnum, f) != eh.e_shnum) { fclose(f); return; }
+	for (auto & s : sh) {
+		if (s.sh_type != SHT_SYMTAB || s.sh_link >= sh.size()) continue;
+		std::vector<ElfW(Sym)> syms(s.sh_size / sizeof(ElfW(Sym)));
+		fseek(f, (long)s.sh_offset, SEEK_SET);
+		if (fread(syms.data(), sizeof(ElfW(Sym)), syms.size(), f) != syms.size()) break;
+		std::string strtab(sh[s.sh_link].sh_size, '\0');
+		fseek(f, (long)sh[s.sh_link].sh_offset, SEEK_SET);
+		if (fread(&strtab[0], 1, strtab.size(), f) != strtab.size()) break;
+		for (auto & y : syms) {
+			int type = ELF64_ST_TYPE(y.st_info);
+			if ((type != STT_OBJECT && type != STT_FUNC && type != STT_TLS) || !y.st_value || y.st_name >= strtab.size()) continue;
+			static_syms->push_back(StaticSym{(uintptr_t)y.st_value, (uintptr_t)y.st_value + (y.st_size ? y.st_size : 1), std::string(&strtab[y.st_name])});
+		}
+	}
+	fclose(f);
+}
 std::string thr_symbol(uintptr_t a) {
 	Dl_info di;
 	if (const char * l = label_of(a)) return l;
 	char buf[256];
 	if (a >= lib_lo && a < lib_hi) {
 		if (dladdr((void *)a, &di) && di.dli_sname) { snprintf(buf, sizeof buf, "%s+0x%lx", di.dli_sname, (unsigned long)(a - (uintptr_t)di.dli_saddr)); return buf; }
+		if (!static_syms && dladdr((void *)a, &di) && di.dli_fname) load_static_syms(di.dli_fname);
+		if (static_syms) for (auto & y : *static_syms) if (a - lib_base >= y.lo && a - lib_base < y.hi) { snprintf(buf, sizeof buf, "%s+0x%lx", y.name.c_str(), (unsigned long)(a - lib_base - y.lo)); return buf; }
 		snprintf(buf, sizeof buf, "libmmd_t.so+0x%lx", (unsigned long)(a - lib_base));
 		return buf;
 	}
